@@ -240,51 +240,67 @@ theorem presplit_fst {m : M} {v : Tok} {p : Tok × List Tok} (h : presplit m v =
       · cases h; exact Or.inl rfl
   · cases h; exact Or.inl rfl
 
+/-- the token is not a flag of the core context: a token spelled like a core flag belongs to the core (it is not
+    consumed as a task's positional value, nor as the value of a pending OPTIONAL-value flag) -/
+def NotCoreFlag (ic : Option Ctx) (v : Tok) : Prop := ∀ c0, ic = some c0 → assoc? v c0.flags = none
+
+theorem coreFlagInTask_false {m : M} {t : Tok} (h : NotCoreFlag m.initial t) : m.coreFlagInTask t = false := by
+  unfold M.coreFlagInTask
+  cases hi : m.initial with
+  | none => simp
+  | some ic => simp [h ic hi]
+
 /-- side condition on the value of an OPTIONAL-value flag (documented ambiguity rules): every positional of the task
-    is filled, the value is not a task name, and it is not flag-like — or, if it is, no piece of it is a flag of the
-    task ("otherwise, the token is interpreted literally and stored as the value for the current flag") -/
-def OptValueOK (reg : List Ctx) (c : Ctx) (a : Arg) (v : Tok) : Prop :=
+    is filled, the value is not a task name and not a core flag spelling, and it is not flag-like — or, if it is, no
+    piece of it is a flag of the task or of the core ("otherwise, the token is interpreted literally and stored as the
+    value for the current flag") -/
+def OptValueOK (ic : Option Ctx) (reg : List Ctx) (c : Ctx) (a : Arg) (v : Tok) : Prop :=
   a.spec.optional = false ∨
-    ((isFlag v = false ∨ (assoc? (beforeEq v) c.flags = none ∧ assoc? (v.take 2) c.flags = none)) ∧
-      c.missingPositional = [] ∧ a.raw = none ∧
+    ((isFlag v = false ∨ (assoc? (beforeEq v) c.flags = none ∧ assoc? (v.take 2) c.flags = none ∧
+        NotCoreFlag ic (beforeEq v) ∧ NotCoreFlag ic (v.take 2))) ∧
+      NotCoreFlag ic v ∧ c.missingPositional = [] ∧ a.raw = none ∧
       reg.find? (fun c => c.name = some v || c.aliases.contains v) = none)
 
 /-- whatever token comes while a value flag is pending is taken verbatim as its value (unless it is itself a
     flag of the context) — this covers the `=`, spaced and glued forms at once -/
 theorem value_step {m c i a} (h : Pending m c i a) (v : Tok) (a' : Arg) (fuel : Nat)
     (hv1 : assoc? v c.flags = none) (hv2 : assoc? v c.inverse = none)
-    (hgive : a.give v = some a') (hopt : OptValueOK m.registry c a v) :
+    (hgive : a.give v = some a') (hopt : OptValueOK m.initial m.registry c a v) :
     ∃ m2, procTok (fuel + 1) m v = .ok m2 ∧ Ready m2 (c.setArg i a') ∧ SameFrame m m2 := by
   obtain ⟨hctx, hfa, hw⟩ := pending_facts h
   obtain ⟨p, hp⟩ := presplit_ok m v
   have hrb : rollback m v p = (v, []) := by
-    rcases hopt with ho | ⟨hnf | ⟨hb, ht⟩, _, _, _⟩
+    rcases hopt with ho | ⟨hnf | ⟨hb, ht, hcb, hct⟩, hcv, _, _, _⟩
     · simp [rollback, hw, keepSplit, hfa, ho]
     · have : p = (v, []) := by
         have := presplit_nonflag m v hnf; rw [hp] at this; cases this; rfl
       subst this
       unfold rollback; split <;> rfl
-    · have hnone : assoc? p.1 c.flags = none := by
+    · have hnone : assoc? p.1 c.flags = none ∧ m.coreFlagInTask p.1 = false := by
         rcases presplit_fst hp with e | e | e <;> rw [e]
-        · exact hv1
-        · exact hb
-        · exact ht
-      simp [rollback, hw, keepSplit, hctx, hnone]
+        · exact ⟨hv1, coreFlagInTask_false hcv⟩
+        · exact ⟨hb, coreFlagInTask_false hcb⟩
+        · exact ⟨ht, coreFlagInTask_false hct⟩
+      simp [rollback, hw, keepSplit, hctx, hnone.1, hnone.2]
   have hset : a.setValue (.s v) = .ok a' := setValue_give h.tv hgive
   have hupd : m.updFlagArg a' = { m with cur := some (c.setArg i a') } := by
     simp [M.updFlagArg, h.flag, M.ctx, M.setCtx, h.notInit, h.cur, Ctx.setArg]
   have hamb : m.checkAmbiguity v = .ok () := by
     unfold M.checkAmbiguity
     rw [hfa]
-    rcases hopt with ho | ⟨_, hmiss, hraw, hlk⟩
+    rcases hopt with ho | ⟨_, _, hmiss, hraw, hlk⟩
     · simp [ho]
     · by_cases ho : a.spec.optional = true
       · have hlk' : m.lookupCtx v = none := hlk
         simp [ho, hraw, hctx, hmiss, hlk']
       · simp [ho]
   have hh : m.handle v = .ok { (m.updFlagArg a') with flagGotValue := true } := by
+    have hnc : (m.optionalPending && m.coreFlagInTask v) = false := by
+      rcases hopt with ho | ⟨_, hcv, _, _, _⟩
+      · simp [M.optionalPending, hfa, ho]
+      · simp [coreFlagInTask_false hcv]
     unfold M.handle
-    simp [h.st, hctx, hv1, hv2, hw]
+    simp [h.st, hctx, hv1, hv2, hw, hnc]
     unfold M.seeValue
     simp [hamb, hfa, h.tv, hset, bind, Except.bind]
   have hi : i < c.args.length := by
@@ -309,7 +325,7 @@ theorem value_step {m c i a} (h : Pending m c i a) (v : Tok) (a' : Arg) (fuel : 
     · intro k hk; rw [hupd] at hk; simp [h.flag] at hk
 
 /-- conditions under which `(fl, v)` is an admissible (flag, value) pair for argument `i` of context `c` -/
-structure ValFlagOK (reg : List Ctx) (c : Ctx) (fl : Tok) (i : Nat) (v : Tok) (a a' : Arg) : Prop where
+structure ValFlagOK (ic : Option Ctx) (reg : List Ctx) (c : Ctx) (fl : Tok) (i : Nat) (v : Tok) (a a' : Arg) : Prop where
   hfl : assoc? fl c.flags = some i
   hai : c.args[i]? = some a
   tv : a.takesValue = true
@@ -317,15 +333,16 @@ structure ValFlagOK (reg : List Ctx) (c : Ctx) (fl : Tok) (i : Nat) (v : Tok) (a
   hv1 : assoc? v c.flags = none                   -- the value does not collide with a flag of the task
   hv2 : assoc? v c.inverse = none
   give : a.give v = some a'                       -- the value is admissible for the parameter's kind
-  opt : OptValueOK reg c a v
+  opt : OptValueOK ic reg c a v
 
 /-- SPACED FORM `--name v` / `-n v` -/
 theorem step_spaced {m c} (h : Ready m c) (fl v : Tok) (i : Nat) (a a' : Arg)
-    (hun : Unsplit fl) (ok : ValFlagOK m.registry c fl i v a a') :
+    (hun : Unsplit fl) (ok : ValFlagOK m.initial m.registry c fl i v a a') :
     ∃ m', runToks m [fl, v] = .ok m' ∧ Ready m' (c.setArg i a') ∧ SameFrame m m' := by
   obtain ⟨m1, hh, hp, hf1⟩ := handle_valueflag h fl i a ok.hfl ok.hai ok.tv ok.fresh
   have hreg : m1.registry = m.registry := hf1.2.2.1
-  obtain ⟨m2, hv, hr, hf2⟩ := value_step hp v a' (v.length + 1) ok.hv1 ok.hv2 ok.give (by rw [hreg]; exact ok.opt)
+  have hini : m1.initial = m.initial := hf1.1
+  obtain ⟨m2, hv, hr, hf2⟩ := value_step hp v a' (v.length + 1) ok.hv1 ok.hv2 ok.give (by rw [hreg, hini]; exact ok.opt)
   refine ⟨m2, ?_, hr, hf1.trans hf2⟩
   have h1 : procTok (fl.length + 2) m fl = .ok m1 := procTok_one _ (presplit_unsplit m fl hun) hh
   rw [runToks_cons_ok h1]
@@ -333,11 +350,12 @@ theorem step_spaced {m c} (h : Ready m c) (fl v : Tok) (i : Nat) (a a' : Arg)
 
 /-- one token that pre-splits into (flag, [value]) from a ready state -/
 theorem tok_split {m c} (h : Ready m c) (tok fl v : Tok) (i : Nat) (a a' : Arg) (n : Nat)
-    (hps : presplit m tok = .ok (fl, [v])) (ok : ValFlagOK m.registry c fl i v a a') :
+    (hps : presplit m tok = .ok (fl, [v])) (ok : ValFlagOK m.initial m.registry c fl i v a a') :
     ∃ m', procTok (n + 2) m tok = .ok m' ∧ Ready m' (c.setArg i a') ∧ SameFrame m m' := by
   obtain ⟨m1, hh, hp, hf1⟩ := handle_valueflag h fl i a ok.hfl ok.hai ok.tv ok.fresh
   have hreg : m1.registry = m.registry := hf1.2.2.1
-  obtain ⟨m2, hv, hr, hf2⟩ := value_step hp v a' n ok.hv1 ok.hv2 ok.give (by rw [hreg]; exact ok.opt)
+  have hini : m1.initial = m.initial := hf1.1
+  obtain ⟨m2, hv, hr, hf2⟩ := value_step hp v a' n ok.hv1 ok.hv2 ok.give (by rw [hreg, hini]; exact ok.opt)
   refine ⟨m2, ?_, hr, hf1.trans hf2⟩
   have hrb : rollback m tok (fl, [v]) = (fl, [v]) := by simp [rollback, h.nw]
   unfold procTok
@@ -389,7 +407,7 @@ theorem presplit_eq_form {m c} (h : Ready m c) {fl : Tok} (hft : FlagTok fl) (v 
 
 /-- EQUALS FORM `--name=v` / `-n=v` -/
 theorem step_eq {m c} (h : Ready m c) (fl v : Tok) (i : Nat) (a a' : Arg)
-    (hft : FlagTok fl) (ok : ValFlagOK m.registry c fl i v a a') :
+    (hft : FlagTok fl) (ok : ValFlagOK m.initial m.registry c fl i v a a') :
     ∃ m', runToks m [fl ++ '=' :: v] = .ok m' ∧ Ready m' (c.setArg i a') ∧ SameFrame m m' := by
   obtain ⟨m', hrun, hr, hf⟩ := tok_split h _ fl v i a a' (fl ++ '=' :: v).length (presplit_eq_form h hft v) ok
   exact ⟨m', runToks_single hrun, hr, hf⟩
@@ -407,7 +425,7 @@ theorem presplit_glued_form {m c} (h : Ready m c) (x y : Char) (w : Tok) (i : Na
 /-- GLUED FORM `-nVALUE` (value non-empty and not starting with `=`: `-n=v` is the equals form) -/
 theorem step_glued {m c} (h : Ready m c) (x y : Char) (w : Tok) (i : Nat) (a a' : Arg)
     (hx : x ≠ '-') (hy : y ≠ '=')
-    (ok : ValFlagOK m.registry c ['-', x] i (y :: w) a a') :
+    (ok : ValFlagOK m.initial m.registry c ['-', x] i (y :: w) a a') :
     ∃ m', runToks m ['-' :: x :: y :: w] = .ok m' ∧ Ready m' (c.setArg i a') ∧ SameFrame m m' := by
   obtain ⟨m', hrun, hr, hf⟩ := tok_split h _ ['-', x] (y :: w) i a a' ('-' :: x :: y :: w).length
     (presplit_glued_form h x y w i a hx hy ok.hfl ok.hai ok.tv) ok
@@ -515,10 +533,6 @@ theorem missing_of_find {c : Ctx} {j : Nat} (hf : c.firstMissing = some j) :
     have : j ∈ c.positional.filter c.isMissing := List.mem_filter.mpr ⟨hmem, hp⟩
     rw [hfil] at this; cases this
   | cons x xs => simp
-
-/-- the token is not a flag of the core context (then a positional slot may take it: fix "core flag is not
-    consumed as a task's positional value") -/
-def NotCoreFlag (ic : Option Ctx) (v : Tok) : Prop := ∀ c0, ic = some c0 → assoc? v c0.flags = none
 
 /-- POSITIONAL TOKEN: fills the first positional parameter that has no value yet -/
 theorem tok_positional {m c} (h : Ready m c) (v : Tok) (j : Nat) (a a' : Arg) (n : Nat)
